@@ -370,6 +370,65 @@ theorem safe_contMake (inp : Input) (h : wf .contMake inp = true) : Safe inp (pr
     (safe_xferAll_move (not_lvcr_of_in h1 rvio) (Nat.le_refl _) (destOk_res inp))
     (cross_of_args (onArg_xferAll _ _ _ _) (onArg_xferAll _ _ _ _) (by decide))
 
+/-! ## grid, tree, options, parse -/
+
+theorem safe_gridMap (inp : Input) (h : wf .gridMap inp = true) : Safe inp (prog .gridMap inp) := by
+  have hs := shape_of_wf h
+  simp only [shapeOk, Bool.and_eq_true] at hs
+  exact safe_callAll hs.1.1.2 (Nat.le_refl _) (destOk_res inp)
+
+theorem safe_gridApply2 (inp : Input) (h : wf .gridApply2 inp = true) : Safe inp (prog .gridApply2 inp) := by
+  have hs := shape_of_wf h
+  simp only [shapeOk, Bool.and_eq_true] at hs
+  exact safe_ite (fun _ => safe_read_call hs.1.1.1.1.2) (fun _ => safe_nil inp)
+
+theorem safe_gridResize (inp : Input) (h : wf .gridResize inp = true) : Safe inp (prog .gridResize inp) := by
+  have hs := shape_of_wf h
+  simp only [shapeOk, Bool.and_eq_true, beq_iff_eq] at hs
+  exact safe_gridCells _ _ _ _ hs.1.1.2 hs.2
+
+theorem safe_treeCtor (inp : Input) (h : wf .treeCtor inp = true) : Safe inp (prog .treeCtor inp) := by
+  have hs := shape_of_wf h
+  simp only [shapeOk, Bool.and_eq_true] at hs
+  exact safe_xferAll_fwd hs.1.1.2 (Nat.le_refl _) (destOk_res inp)
+
+theorem safe_treePush (inp : Input) (o : Op) (ho : o = .treePushValue ∨ o = .treePushTree) (h : wf o inp = true) :
+    Safe inp (prog o inp) := by
+  have hs := shape_of_wf h
+  rcases ho with rfl | rfl <;> simp only [shapeOk, Bool.and_eq_true] at hs <;> obtain ⟨⟨⟨⟨⟨_, h0⟩, h1⟩, _⟩, _⟩, _⟩ := hs
+  · exact safe_xferAll_fwd h1 (Nat.le_refl _) ((destOk_arg inp 0).2 ⟨not_lvcr_of_in h0 rvio_io, lt_of_catIn h0⟩)
+  · exact safe_xferAll_fwd (anyCat_of_rv h1) (Nat.le_refl _) ((destOk_arg inp 0).2 ⟨not_lvcr_of_in h0 rvio_io, lt_of_catIn h0⟩)
+
+theorem safe_treeRelease (inp : Input) (h : wf .treeRelease inp = true) : Safe inp (prog .treeRelease inp) := by
+  have hs := shape_of_wf h
+  simp only [shapeOk, Bool.and_eq_true, decide_eq_true_eq] at hs
+  exact safe_singleton ((ok_pop inp 0 _ .res).2 ⟨not_lvcr_of_in hs.1.1.2 rvio_io, hs.2, destOk_res inp⟩)
+
+theorem safe_treeMap (inp : Input) (h : wf .treeMap inp = true) : Safe inp (prog .treeMap inp) :=
+  safe_deriveEach (by simp) (destOk_res inp)
+
+theorem safe_optsFlag (inp : Input) (h : wf .optsFlag inp = true) : Safe inp (prog .optsFlag inp) := by
+  have hs := shape_of_wf h
+  simp only [shapeOk, Bool.and_eq_true] at hs
+  obtain ⟨⟨⟨⟨⟨_, h0⟩, h1⟩, _⟩, _⟩, _⟩ := hs
+  exact safe_append (safe_xferAll_move (not_lvcr_of_in h0 rvio_rv) (Nat.le_refl _) (destOk_res inp))
+    (safe_xferAll_move (not_lvcr_of_in h1 rvio_rv) (Nat.le_refl _) (destOk_res inp))
+    (cross_of_args (onArg_xferAll _ _ _ _) (onArg_xferAll _ _ _ _) (by decide))
+
+theorem safe_optsOption (inp : Input) (h : wf .optsOption inp = true) : Safe inp (prog .optsOption inp) := by
+  have hs := shape_of_wf h
+  simp only [shapeOk, Bool.and_eq_true] at hs
+  exact safe_xferAll_move (not_lvcr_of_in hs.1.1.2 rvio_rv) (Nat.le_refl _) (destOk_res inp)
+
+theorem safe_parseSequence (inp : Input) (h : wf .parseSequence inp = true) : Safe inp (prog .parseSequence inp) := by
+  refine safe_ite (fun _ => ?_) (fun _ => safe_ite (fun _ => ?_) (fun _ => safe_nil inp))
+  · exact safe_cons ((ok_fresh inp _ .res).2 ⟨by omega, destOk_res inp⟩) (safe_fresh_res inp 1001 (by omega))
+      (fun y _ b j hk _ => hk)
+  · exact safe_singleton ((ok_fresh inp _ .drop).2 ⟨by omega, destOk_drop inp⟩)
+
+theorem safe_parseRepetition (inp : Input) (h : wf .parseRepetition inp = true) : Safe inp (prog .parseRepetition inp) :=
+  safe_fresh_range _ _ (destOk_res inp)
+
 /-- **every registered operation's program is safe**, for arguments of every size -/
 theorem prog_safe (o : Op) (inp : Input) (h : wf o inp = true) : Safe inp (prog o inp) := by
   cases o with
@@ -427,5 +486,17 @@ theorem prog_safe (o : Op) (inp : Input) (h : wf o inp = true) : Safe inp (prog 
   | arrFromRange => exact safe_arrFromRange inp h
   | recPermute => exact safe_recPermute inp h
   | contMake => exact safe_contMake inp h
+  | gridMap => exact safe_gridMap inp h
+  | gridApply2 => exact safe_gridApply2 inp h
+  | gridResize => exact safe_gridResize inp h
+  | treeCtor => exact safe_treeCtor inp h
+  | treePushValue => exact safe_treePush inp _ (Or.inl rfl) h
+  | treePushTree => exact safe_treePush inp _ (Or.inr rfl) h
+  | treeRelease => exact safe_treeRelease inp h
+  | treeMap => exact safe_treeMap inp h
+  | optsFlag => exact safe_optsFlag inp h
+  | optsOption => exact safe_optsOption inp h
+  | parseSequence => exact safe_parseSequence inp h
+  | parseRepetition => exact safe_parseRepetition inp h
 
 end Fcppt.C05
